@@ -149,7 +149,7 @@ where
         self.progress_and_get_begin_idx(n).and_then(|begin_idx| {
             // SAFETY: no other thread has the valid condition to iterate, they are waiting
             let iter = unsafe { self.mut_iter() };
-            let end_idx = begin_idx + n;
+            let end_idx = begin_idx.saturating_add(n);
             let buffer = (begin_idx..end_idx)
                 .map(|_| iter.next())
                 .take_while(|x| x.is_some())
